@@ -18,7 +18,7 @@ first one is exact for every double `w` that is not subnormal.)  The definitions
 agree with these on the inputs of `FlExact` (`Props/C15.lean`, `fl_eq_exact`).
 
 Domain (`FlDom`): every product / quotient above is zero or in the normal range of binary64 (`Fl.InRange`) and
-every spike sample is below `2^63` in magnitude.  Outside it the real code meets subnormal rounding, `inf`, or the
+every ROUNDED product is below `2^63` in magnitude (`samplesOfFl_int64`: the samples then fit `int64`).  Outside it the real code meets subnormal rounding, `inf`, or the
 undefined `astype(np.int64)` of a value that does not fit — none of which is modelled.  NumPy computes
 `spike_times * sample_rate` with SIMD multiplications, which are correctly rounded like the scalar ones.
 -/
@@ -39,12 +39,16 @@ def halfQuotFl (window bin : Rat) : Rat :=
 /-- `winsize_bins = 2 * int(.5 * window_size / bin_size) + 1` (ccg.py:131) -/
 def winsizeBinsFl (window bin : Rat) : Int := 2 * truncInt (halfQuotFl window bin) + 1
 
+/-- the float product `sample_rate * bin_size` (ccg.py:126) BEFORE `int()` cuts it: the bin in samples as the float
+unit sees it.  A whole number = the bin is a whole number of samples; otherwise `int()` shortens the bin. -/
+def binProdFl (rate bin : Rat) : Rat := roundDouble (rate * clip bin clipLo clipHi)
+
 /-- `winsize_bins // 2` -/
 def halfOfFl (window bin : Rat) : Nat := (winsizeBinsFl window bin / 2).toNat
 
 /-- the inputs on which the roundings above are what the hardware computes and `astype(np.int64)` is defined -/
 def FlDom (times : List Rat) (rate bin window : Rat) : Prop :=
-  (∀ t ∈ times, InRange (t * rate) ∧ absR (t * rate) < pow2 63) ∧
+  (∀ t ∈ times, InRange (t * rate) ∧ absR (roundDouble (t * rate)) < pow2 63) ∧
   InRange (rate * clip bin clipLo clipHi) ∧
   InRange ((1 / 2 : Rat) * clip window clipLo clipHi) ∧
   InRange (roundDouble ((1 / 2 : Rat) * clip window clipLo clipHi) / clip bin clipLo clipHi)
